@@ -9,8 +9,10 @@ LEVEL_TEXT = ("Deductive: SUM / PRODUCT / MIN / MAX / COUNT / AVERAGE / MEDIAN r
               "library functions) of exactly the flattened items, for any number of numeric items, and an error value among any number of items is the "
               "outcome (6 functions); LARGE is index-safe (#NUM! outside 1..len); "
               "parse_criteria compiles operator / bare-value / wildcard criteria into the predicate of the statement (item matched against the "
-              "criterion); MAXIFS is the maximum of exactly the selected items, 0 when nothing is selected (loop invariant with quantifiers, "
-              "integer items).  The flattening generators (iflatten, inumbers) are outside the subset: callers use their contract, the bodies "
+              "criterion); SUMIFS (one criterion on int/float items; two criteria carrying the same text), AVERAGEIFS and MAXIFS are the sum / mean / "
+              "maximum of exactly the selected items for ranges of any length - loop invariants over spec functions defined by recursion on "
+              "the prefix length (@inductive: uninterpreted application + the defining equation unfolded once), 0 / an error when nothing is "
+              "selected; thorough tier: MAXIFS also against the quantified characterisation (an equal selected item exists, all selected <=).  The flattening generators (iflatten, inumbers) are outside the subset: callers use their contract, the bodies "
               "are checked natively.  Bounded: every aggregate against exact Fraction arithmetic over seeded lists, partitions, permutations, "
               "criteria of the three forms.")
 TRUSTED = ['statistics.*, sum, max, min, sorted, reduce: textbook definitions (assumed, compared with exact rationals natively)',
